@@ -335,6 +335,11 @@ func genScenario(ch choose.Chooser, withWaits bool) scenario {
 	for s := 0; s < nSetups; s++ {
 		gc += 1 + ch.Int("gcstep", 0, 3)
 		n := ch.Int("nparts", 1, 10)
+		if choose.Chance(ch, "empty", 8) {
+			// a set-up naming nobody: it supersedes whatever was pending; whether it fires itself is
+			// not constrained (at most once). Stale signals of earlier participants follow it.
+			n = 0
+		}
 		parts := map[string]int{}
 		ids := []string{}
 		perm := choose.Perm(ch, "idx", 12)
@@ -344,6 +349,13 @@ func genScenario(ch choose.Chooser, withWaits bool) scenario {
 			ids = append(ids, id)
 		}
 		sc.Ops = append(sc.Ops, gop{Kind: "setup", GC: gc, Parts: parts})
+		if n == 0 {
+			for i, m := 0, ch.Int("stale", 1, 3); i < m; i++ {
+				sc.Ops = append(sc.Ops, gop{Kind: "ready", ID: fmt.Sprintf("u%d", ch.Int("stale.who", 0, 9))})
+			}
+			sc.Ops = append(sc.Ops, gop{Kind: "pause", Ms: 2})
+			continue
+		}
 		// signals: a drawn subset in a drawn order, with repetitions and unknown ids
 		order := choose.Perm(ch, "order", n)
 		k := n
@@ -404,6 +416,11 @@ func classify(sc scenario, labels map[string]bool) (bool, string) {
 		kinds = append(kinds, o.String())
 	}
 	labels[fmt.Sprintf("parts_%d", maxParts)] = true
+	for _, o := range sc.Ops {
+		if o.Kind == "setup" && len(o.Parts) == 0 {
+			labels["empty_setup"] = true
+		}
+	}
 	nontrivial := maxParts >= 2 && (labels["dup"] || labels["unknown"] || labels["supersede_pending"] || labels["timeout_fire"] || labels["rebuild"])
 	return nontrivial, strings.Join(kinds, " ")
 }
